@@ -1,6 +1,7 @@
 package replication
 
 import (
+	"encoding/binary"
 	"fmt"
 	"time"
 
@@ -161,7 +162,9 @@ func serializeVariableRecords(epoch time.Time, intervalsPerDay uint32, wtSet *wa
 		// last 4 byte of each record is an intervalTick
 		intervalTicks := io.ToUInt32(buf[len(buf)-IntervalTicksBytes:])
 		// expand intervalTicks(32bit) to Epoch and Nanosecond
-		_, nanosecond := executor.GetTimeFromTicks(uint64(epoch.Unix()), intervalsPerDay, intervalTicks)
+		second, nanosecond := executor.GetTimeFromTicks(uint64(epoch.Unix()), intervalsPerDay, intervalTicks)
+		// the record's Epoch is the second inside the interval, not the interval start
+		binary.LittleEndian.PutUint64(buf[cursor-EpochBytes:cursor], second)
 		// replace intervalTick with Nanosecond
 		buf, err = io.Serialize(buf[:len(buf)-IntervalTicksBytes], int32(nanosecond))
 		if err != nil {
